@@ -289,8 +289,33 @@ impl Property for C12 {
         let out = match transform(&doc, &Cfg::plain()) {
             Outcome::Ok(o) => o,
             Outcome::Err(k, m) => {
-                // an empty intersection legitimately has no solution
+                // an empty intersection legitimately has no solution - unless the hosts are plain boxes (rects, groups) that
+                // overlap by more than any generated margin takes away: then there is one
                 if case.steps.iter().any(|s| !s.surround) {
+                    let host_box = |r: usize| -> Option<BBox> {
+                        match case.targets.get(r)? {
+                            Target::Rect([x, y, w, h]) => Some(BBox::xywh(*x, *y, *w, *h)),
+                            Target::Group(kids) => kids.iter().map(|[x, y, w, h]| BBox::xywh(*x, *y, *w, *h)).reduce(|a, b| a.union(&b)),
+                            _ => None,
+                        }
+                    };
+                    let certainly_solvable = case.pending.is_none()
+                        && case.steps.iter().all(|s| {
+                            let boxes: Option<Vec<BBox>> = s.refs.iter().map(|r| host_box(*r)).collect();
+                            match boxes {
+                                Some(bs) if !bs.is_empty() => {
+                                    let mut i = Some(bs[0]);
+                                    for b in &bs[1..] {
+                                        i = i.and_then(|x| x.intersect(b));
+                                    }
+                                    s.surround || i.map(|x| x.w() > 2.5 && x.h() > 2.5).unwrap_or(false)
+                                }
+                                _ => false,
+                            }
+                        });
+                    if certainly_solvable {
+                        return Verdict::fail(format!("c12:inside-rejected-although-hosts-overlap:{k}"), format!("{}\n--- document ---\n{doc}", crate::run::trunc(&m, 1500)), vec![], 1);
+                    }
                     return Verdict::skip(format!("inside-without-solution-or-error:{k}"), vec![], 1);
                 }
                 return Verdict::fail(format!("c12:transform-failed:{k}"), format!("{}\n--- document ---\n{doc}", crate::run::trunc(&m, 1500)), vec![], 1);
